@@ -7,6 +7,9 @@
 //!        {"id": n, "ok": true, "out": "<generated text>"}
 //!        {"id": n, "ok": false, "err": "<message>", "panic": bool}
 //!
+//! `dl-c18 classify` reads {"id": n, "text": "<comment trivia>"} lines and prints the token
+//!    generator's `is_single_line_comment` for each.
+//!
 //! `dl-c18 text`  reads {"id": n, "text": "<comment text>"} lines and prints
 //!        {"id": n, "comment": "<hex of AppendTextComment::text()>", "single": [bool...]}
 //!    (the comment trivia the rule builds, through the verif hook).
@@ -87,6 +90,20 @@ fn main() {
                            "single": single, "lines": comment.lines().count()})
                 )
                 .unwrap();
+            }
+        }
+        "classify" => {
+            // {"id": n, "text": "<comment trivia>"} -> {"id": n, "single": is_single_line_comment(text)}
+            for line in stdin.lock().lines() {
+                let line = line.expect("stdin");
+                if line.trim().is_empty() {
+                    continue;
+                }
+                let case: Value = serde_json::from_str(&line).expect("case json");
+                let id = case["id"].clone();
+                let text = case["text"].as_str().unwrap_or("").to_owned();
+                let single = darklua_core::verif_hooks::is_single_line_comment(&text);
+                writeln!(out, "{}", json!({"id": id, "text": hex(text.as_bytes()), "single": single})).unwrap();
             }
         }
         _ => {
